@@ -4,12 +4,14 @@
 
 mod common;
 mod mirror;
+mod nogood;
 
 use simcore::cli::{cmd_replay, cmd_run, Dyn};
 
 fn lookup(scenario: &str, property: &str) -> Option<Box<dyn Dyn>> {
     match (scenario, property) {
         ("mirror", "C19") => Some(Box::new(mirror::Mirror { property: "C19" })),
+        ("nogood", "C05") => Some(Box::new(nogood::Nogood)),
         ("mirror", "C06") => Some(Box::new(mirror::Mirror { property: "C06" })),
         _ => None,
     }
